@@ -434,6 +434,7 @@ impl<'a> E1<'a> {
         }
         let pl = self.prefix.len();
         for k in 0..ops.len() {
+            crate::sup::tick();
             let first = ch[k + 1..].iter().all(|c| *c == 0);
             let op = &ops[k];
             if !first {
